@@ -10,4 +10,5 @@ CONSTANTS
   Alpha = "B"
   MaxLen = 3
   TailLen = 1
+  DeepReps = {}
 INVARIANT Emit
